@@ -21,7 +21,11 @@ pub fn build(in_dir: &Path, out_dir: &Path, pointer_size: usize) -> anyhow::Resu
     let pattern = if in_dir.as_os_str().is_empty() {
         "**/*.pyxis".to_string()
     } else {
-        format!("{}/**/*.pyxis", in_dir.display())
+        // the directory is a literal path, not part of the pattern
+        format!(
+            "{}/**/*.pyxis",
+            glob::Pattern::escape(&in_dir.display().to_string())
+        )
     };
     for path in glob::glob(&pattern)?.filter_map(Result::ok) {
         semantic_state.add_file(&in_dir, &path)?;
